@@ -9,7 +9,9 @@ Local Open Scope nat_scope.
 Record step_obs := mkStep {
   s_kind : nat;          (* 0 raised | 1 new family object | 2 the object itself | 3 None | 4 bare builtin / iterator *)
   s_res : obj;           (* the new object (kind 1) *)
-  s_cur : obj            (* the current object after the operation *)
+  s_cur : obj;           (* the current object after the operation *)
+  s_alias : bool         (* aliasing probe: rebinding an attribute of the new object (or of its source) changed the other
+                            one, or growing one payload grew the other *)
 }.
 
 Record case := mkCase {
@@ -45,6 +47,7 @@ Definition always_derivable (n : string) : bool := smemb n ["copy"; "copy.copy";
            3 a derived object lost / changed an election attribute   4 the object itself changed class / attributes
            5 a profile with validation enabled contains a wrong-typed ballot
            6 copy / deepcopy / pickle / construction from the object raised
+           7 a derived object shares its attribute dictionary / payload with its source (aliasing probe)
    model:  10 kind of outcome   11 the new object   12 the current object after the operation *)
 Fixpoint check_steps (tags : list nat) (cur other : obj) (ops : list op) (steps : list step_obs) : list nat :=
   match ops, steps with
@@ -81,6 +84,7 @@ Fixpoint check_steps (tags : list nat) (cur other : obj) (ops : list op) (steps 
       ++ flag (Nat.eqb (o_cls (s_cur s)) (o_cls cur) && nl_eqb (o_attrs (s_cur s)) (o_attrs cur)) 4
       ++ flag (profile_ok tags (s_cur s) && (negb (Nat.eqb (s_kind s) 1) || profile_ok tags (s_res s))) 5
       ++ flag (negb (always_derivable (opname o) && prom && Nat.eqb (s_kind s) 0)) 6
+      ++ flag (negb (s_alias s)) 7
       ++ flag (Nat.eqb (kind_of r) (s_kind s)) 10
       ++ flag (match r with RNew x => negb (Nat.eqb (s_kind s) 1) || obj_eqb (is_multi_profile (o_cls x)) x (s_res s)
                           | _ => true end) 11
